@@ -13,7 +13,7 @@ namespace gen {
 using namespace ops;
 static const uint32_t F_LARGE = 1, F_HARD = 2, F_FULL = 4, F_JIT = 8, F_SECURE = 16, F_SSSE3 = 32, F_AVX2 = 64, F_V2 = 128;
 
-static const uint32_t KEY_LENS[] = {12, 0, 1, 60, 61, 200, 32, 7};
+static const uint32_t KEY_LENS[] = {12, 0, 200, 60, 61, 1, 32, 7};
 static const uint32_t INPUT_LENS[] = {76, 0, 1, 127, 128, 129, 1024, 33, 64, 200};
 
 // ------------------------------------------------------------------ builder with a mirror of the contract model
@@ -317,39 +317,54 @@ static void history(Builder &b, const HistoryOpts &ho) {
 // ------------------------------------------------------------------ C15: enumeration + seeded histories
 static void build_enumeration(Context &gc, bool pairs) {
 	gc.enumeration.clear();
-	struct Target { int kind; uint32_t flags; int keylen_idx; };
-	std::vector<Target> targets;
-	for (uint32_t cf : gc.cache_flagsets) targets.push_back({ALLOC_CACHE, cf, 0});
-	targets.push_back({ALLOC_DATASET, 0, 0}); targets.push_back({ALLOC_DATASET, F_LARGE, 0});
-	for (uint32_t f : gc.vm_flagsets_light) for (int kl : {0, 5}) for (uint32_t v2 : {0u, F_V2}) { if (v2 && kl) continue; targets.push_back({CREATE_VM, f | v2, kl}); }
-	for (uint32_t f : gc.vm_flagsets_fast) targets.push_back({CREATE_VM, f, 0});
-	for (auto &t : targets) {
-		int n = req_count(gc, t.kind, t.flags);
-		std::vector<std::vector<int>> faults;
-		for (int k = 1; k <= n + 1; ++k) faults.push_back({k});
-		for (int k = 1; k <= n; ++k) faults.push_back({k, k + 1});
-		if (pairs) for (int k = 1; k <= n; ++k) for (int j = k + 2; j <= n + 2; ++j) faults.push_back({k, j});
-		for (auto &fl : faults) {
+	struct Item { int kind; uint32_t flags; int key; std::vector<int> fault; };
+	std::vector<Item> items;
+	auto add_faults = [&](int kind, uint32_t flags, int key) {
+		int n = req_count(gc, kind, flags);
+		for (int k = 1; k <= n + 1; ++k) items.push_back({kind, flags, key, {k}});
+		for (int k = 1; k <= n; ++k) items.push_back({kind, flags, key, {k, k + 1}});
+		if (pairs) for (int k = 1; k <= n; ++k) for (int j = k + 2; j <= n + 2; ++j) items.push_back({kind, flags, key, {k, j}});
+	};
+	// key 0: 12 bytes (cacheKey copy stays in the std::string SSO buffer); key 2: 200 bytes (heap-allocated copy)
+	for (uint32_t cf : gc.cache_flagsets) add_faults(ALLOC_CACHE, cf, 0);
+	add_faults(ALLOC_DATASET, 0, 0); add_faults(ALLOC_DATASET, F_LARGE, 0);
+	for (int key : {0, 2}) {
+		for (uint32_t f : gc.vm_flagsets_light) for (uint32_t v2 : {0u, F_V2}) { if (v2 && key) continue; add_faults(CREATE_VM, f | v2, key); }
+		if (key == 0) for (uint32_t f : gc.vm_flagsets_fast) add_faults(CREATE_VM, f, key);
+	}
+	// pack items that share a setup (same key) into plans
+	size_t per_plan = gc.small ? 12 : 40;
+	for (int key : {0, 2}) {
+		std::vector<Item> sel; for (auto &it : items) if (it.key == key) sel.push_back(it);
+		for (size_t pos = 0; pos < sel.size(); pos += per_plan) {
 			Builder b(gc, 0x15, "enum");
 			b.plan.property = "C15";
-			b.plan.note = "enumeration";
-			int key = t.keylen_idx; // key 0: 12 bytes (SSO), key 5: 200 bytes (heap-allocated cacheKey copy)
 			b.alloc_cache(0, 0, 0); b.init_cache(0, key);
-			bool fast = t.kind == CREATE_VM && (t.flags & F_FULL);
-			if (fast) { b.alloc_dataset(0, 0, 0); if (gc.small) b.init_dataset_full(0, 0); }
-			if (t.kind == ALLOC_CACHE) {
-				{ Op &o = b.emit(ALLOC_CACHE); o.c = 1; o.flags = t.flags; o.fault = fl; o.expect_null = true; }
-				b.alloc_cache(1, t.flags, 0); b.init_cache(1, key);
-				b.create_vm(0, (t.flags & F_JIT) ? F_JIT : 0, 1, -1, 0); b.hash(0, 0);
-			} else if (t.kind == ALLOC_DATASET) {
-				{ Op &o = b.emit(ALLOC_DATASET); o.d = 1; o.flags = t.flags; o.fault = fl; o.expect_null = true; }
-				b.alloc_dataset(1, t.flags, 0);
-				if (gc.small) { b.init_dataset_full(1, 0); b.create_vm(0, F_FULL, -1, 1, 0); b.hash(0, 0); }
-			} else {
-				{ Op &o = b.emit(CREATE_VM); o.v = 0; o.flags = t.flags; o.c = fast ? -1 : 0; o.d = fast ? 0 : -1; o.fault = fl; o.expect_null = true; }
-				b.create_vm(0, t.flags, fast ? -1 : 0, fast ? 0 : -1, 0);
-				if (!fast || gc.small) b.hash(0, 0);
+			bool have_ds = false;
+			size_t end = std::min(sel.size(), pos + per_plan);
+			for (size_t i = pos; i < end; ++i) {
+				const Item &t = sel[i];
+				bool do_hash = gc.small || ((i & 3) == 0);
+				if (t.kind == ALLOC_CACHE) {
+					{ Op &o = b.emit(ALLOC_CACHE); o.c = 1; o.flags = t.flags; o.fault = t.fault; o.expect_null = true; }
+					b.alloc_cache(1, t.flags, 0);
+					if (do_hash) { b.init_cache(1, key); b.create_vm(0, (t.flags & F_JIT) ? F_JIT : 0, 1, -1, 0); b.hash(0, 0); b.destroy_vm(0); }
+					b.release_cache(1);
+				} else if (t.kind == ALLOC_DATASET) {
+					{ Op &o = b.emit(ALLOC_DATASET); o.d = 1; o.flags = t.flags; o.fault = t.fault; o.expect_null = true; }
+					b.alloc_dataset(1, t.flags, 0);
+					if (gc.small && (i & 3) == 0) { b.init_dataset_full(1, 0); b.create_vm(0, F_FULL, -1, 1, 0); b.hash(0, 0); b.destroy_vm(0); }
+					b.release_dataset(1);
+				} else {
+					bool fast = (t.flags & F_FULL) != 0;
+					if (fast && !have_ds) { b.alloc_dataset(0, 0, 0); if (gc.small) b.init_dataset_full(0, 0); have_ds = true; }
+					{ Op &o = b.emit(CREATE_VM); o.v = 0; o.flags = t.flags; o.c = fast ? -1 : 0; o.d = fast ? 0 : -1; o.fault = t.fault; o.expect_null = true; }
+					b.create_vm(0, t.flags, fast ? -1 : 0, fast ? 0 : -1, 0);
+					if (do_hash && (!fast || gc.small)) b.hash(0, 0);
+					b.destroy_vm(0);
+				}
 			}
+			b.plan.note = "enumeration items " + std::to_string(pos) + ".." + std::to_string(end) + " of " + std::to_string(sel.size()) + " (key " + std::to_string(key) + ")";
 			gc.enumeration.push_back(b.plan);
 		}
 	}
@@ -497,6 +512,7 @@ static void gen_c08(Builder &b, bool thorough) {
 			else if (m < 5) len = 4 * (1 + rng.below(16));         // multiple of 4
 			else if (m < 8) len = 5 + rng.below(60);               // small, any residue
 			else len = 1 + rng.below(maxlen);
+			if (len > N) len = N;
 			uint64_t lo;
 			uint64_t w = rng.below(10);
 			if (w < 2) lo = N - std::min(N, len) - (len == 0 ? 1 : 0);   // touching the last item
@@ -562,7 +578,6 @@ ops::Plan generate(Context &gc, uint64_t run_seed, uint64_t index) {
 		if (gc.enumeration.empty()) build_enumeration(gc, thorough);
 		Plan p = gc.enumeration[index % gc.enumeration.size()];
 		p.seed = run_seed; p.heap_seed = rt::mix64(run_seed, 77) | 1;
-		p.note = "enumeration " + std::to_string(index % gc.enumeration.size()) + "/" + std::to_string(gc.enumeration.size());
 		return p;
 	}
 	Builder b(gc, run_seed, P.c_str());
